@@ -199,6 +199,13 @@ func C19Case(r *Runner, base string, tape *sim.Tape) *Outcome {
 	if c.Inv.Prepopulated > 0 {
 		out.stat("scenarios_with_prepopulated_destinations", 1)
 	}
+	if c.Inv.AbsInputs {
+		out.stat("scenarios_with_absolute_input_paths", 1)
+		inj = nil // fault-free only: error aiming works on relative names
+	}
+	if c.Inv.Chroot {
+		out.stat("scenarios_run_with_the_tree_as_file_system_root", 1)
+	}
 	if len(c.Inv.Blockers) > 0 {
 		out.stat("scenarios_with_a_file_where_a_directory_is_needed", 1)
 	}
